@@ -143,4 +143,12 @@ def bitmap_locals(f):
             rel, d = rules.cmp_rejects(f, comp)
             if rel is not None:
                 ent["rejecting"].append(comp["bb"])
+                # how many bit-masks lie between the value read from the input and the tested value: exactly one (the
+                # test's own mask) means the RAW value is tested; two or more mean an already masked copy is tested
+                nand = 0
+                for v in vis:
+                    for (b2, si, it) in f.defs().get(v, []):
+                        if si != "t" and it["rv"].get("k") == "bin" and it["rv"]["op"] == "BitAnd":
+                            nand += 1
+                ent.setdefault("raw", []).append(nand <= 1)
     return res
